@@ -39,10 +39,10 @@ def pli_batch(c, scripts, tag):
     return vlib.run_batch(c, tag="growth-pli-" + tag, scripts=scripts, nontrivial=pli_nontrivial, go_timeout=600, **PLI)
 
 
-def pli_gen(c, warm, L, periodic, simulate=None):
+def pli_gen(c, warms, L, periodic, simulate=None):
     base = "Gen_IntervalPli_sim.cfg" if simulate else "Gen_IntervalPli.cfg"
-    cfg = vlib.cfg_variant(c, base, {"Warm": warm, "L": L, "Periodic": "TRUE" if periodic else "FALSE"})
-    beh = vlib.generate(c, "Gen_IntervalPli.tla", cfg, workers=4, simulate=(simulate, L + 8) if simulate else None)
+    cfg = vlib.cfg_variant(c, base, {"Warms": "{%s}" % ", ".join(str(w) for w in warms), "L": L, "Periodic": "TRUE" if periodic else "FALSE"})
+    beh = vlib.generate(c, "Gen_IntervalPli.tla", cfg, workers=4, simulate=(simulate, L + 1) if simulate else None)
     return [{"level": "gate" if periodic else "noint", "steps": b} for b in beh]
 
 
@@ -50,20 +50,21 @@ def run_pli(c):
     rng = random.Random(c.seed)
     q = c.quick
     # (M)
-    vlib.model_check(c, "MC_IntervalPli.tla", vlib.cfg_variant(c, "MC_IntervalPli.cfg", {"MaxSteps": 6 if q else 8}), workers=4, timeout=1800)
+    vlib.model_check(c, "MC_IntervalPli.tla", vlib.cfg_variant(c, "MC_IntervalPli.cfg", {"MaxSteps": 5 if q else 8}), workers=4, timeout=1800)
     vlib.model_check(c, "MC_IntervalPli.tla", vlib.cfg_variant(c, "MC_IntervalPli_noint.cfg", {"MaxSteps": 5 if q else 8}), workers=4, timeout=1800)
     vlib.model_check(c, "MC_IntervalPli.tla", "MC_IntervalPli_neg_nounbind.cfg", workers=2,
                      expect_violation="Invariant RegisteredIsSupported is violated",
                      note="negative control: Unbind that leaves the stream registered (the defect repaired by b202ca0)")
-    # (G) every sequence of L calls/ticks over three SSRCs from four starting points; gated ticker and no ticker
-    plan = [(0, 3, True), (3, 2, True), (2, 2, True), (0, 2, False), (1, 2, False)] if q else \
-           [(0, 4, True), (2, 4, True), (1, 3, True), (3, 3, True), (0, 4, False), (2, 3, False), (3, 3, False)]
+    # (G) every sequence of L calls/ticks over three SSRCs from four starting points (0 fresh, 1 loop running, 2 loop running and
+    # two streams registered, 3 a request pending before there is a loop); gated ticker and no ticker
+    plan = [((0, 3), 3, True), ((0, 1, 3), 2, False)] if q else \
+           [((0, 2), 4, True), ((1, 3), 3, True), ((0,), 4, False), ((2, 3), 3, False)]
     scripts = []
-    for warm, L, periodic in plan:
-        scripts += pli_gen(c, warm, L, periodic)
+    for warms, L, periodic in plan:
+        scripts += pli_gen(c, warms, L, periodic)
     # (T) seeded random walks of the generator (long histories)
-    for warm, periodic in ((0, True), (2, True), (3, True), (1, False)):
-        scripts += pli_gen(c, warm, 30 if q else 80, periodic, simulate=(40 if q else 700))
+    scripts += pli_gen(c, (0, 2, 3), 30 if q else 80, True, simulate=(120 if q else 2500))
+    scripts += pli_gen(c, (1, 3), 30 if q else 80, False, simulate=(40 if q else 800))
     rng.shuffle(scripts)
     chunk = 60000
     for i in range(0, len(scripts), chunk):
@@ -94,7 +95,7 @@ def dump_gen(c, L, alpha, simulate=None, **sets):
         consts[k] = sset(*sets[k])
     base = "Gen_PacketDump_sim.cfg" if simulate else "Gen_PacketDump.cfg"
     cfg = vlib.cfg_variant(c, base, consts)
-    beh = vlib.generate(c, "Gen_PacketDump.tla", cfg, workers=4, simulate=(simulate, L + 4) if simulate else None)
+    beh = vlib.generate(c, "Gen_PacketDump.tla", cfg, workers=4, simulate=(simulate, L + 1) if simulate else None)
     res = []
     for b in beh:
         sc = dict(b["cfg"])
@@ -119,7 +120,6 @@ def run_dump(c):
     if q:
         # every RTP-side configuration x every sequence of 2 steps over singles, bursts and Close
         scripts += dump_gen(c, 2, "small", **rtp_side)
-        scripts += dump_gen(c, 2, "small", RF=("even",), RFMT=("text",), CF=("all", "hasfb"), PF=("none", "fb"), CFMT=("text", "bin", "both"))
     else:
         scripts += dump_gen(c, 3, "small", **rtp_side)
         scripts += dump_gen(c, 3, "small", **rtcp_side)
